@@ -477,6 +477,133 @@ def c16f(ctx):
         ctx.fail(o, "(program)", "expected >= 3 unwrapped region heads in the policy (on_write x2, trim), found %d" % n)
 
 
+def c16g(ctx):
+    """With a dedicated maintenance thread, `maintenance_flag` says "a maintenance run has been requested and not finished".
+    Eviction happens only in maintenance runs, so the bound on resident entries rests on the flag's protocol: it starts
+    false; try_maintenance requests a run exactly by winning compare_exchange(false, true); the loop processes on every
+    received signal and stores false afterwards.  A flag that starts true (or is never lowered) means no run is ever
+    requested again: the cache grows without bound."""
+    prog = ctx.prog
+    o = ctx.ob("C16.g", "maintenance/flag-protocol", "K5+K2", "maintenance_flag starts false, is raised only by compare_exchange(false, true) in try_maintenance, and lowered after every run of the maintenance loop")
+    n = 0
+    # (1) initial value
+    nb = ctx.touch(prog.body("TinyLFUInner::new"))
+    ag = nb.aggregates(r"tiny_lfu::TinyLFUInner$")
+    if len(ag) != 1:
+        ctx.fail(o, Site(nb, 0, 0), "anchor missing: the TinyLFUInner aggregate in TinyLFUInner::new")
+    else:
+        rv = ag[0].node["rv"]
+        i = rv["fields"].index("maintenance_flag")
+        news = [s_ for s_ in nb.calls_to(r"atomic::Atomic::<bool>::new$")]
+        n += len(news)
+        vals = {(s_.node["args"][0].get("c") or {}).get("s") for s_ in news}
+        if vals != {"false"}:
+            ctx.fail(o, ag[0], "TinyLFUInner::new starts maintenance_flag at %s: with a dedicated maintenance thread no run is ever requested (the request is compare_exchange(false, true)), "
+                     "nothing is ever evicted and the number of resident entries is unbounded" % sorted(vals))
+    # (2) the request
+    tm = ctx.touch(prog.body("TinyLFU::try_maintenance"))
+    cx = tm.calls_to(r"atomic::Atomic::<bool>::compare_exchange$")
+    snd = tm.calls_to(r"channel::Sender::<T>::try_send$|channel::Sender::<T>::send$")
+    n += len(cx) + len(snd)
+    if len(cx) != 1 or len(snd) != 1:
+        ctx.fail(o, Site(tm, 0, 0), "anchor missing: compare_exchange / send in try_maintenance (%d / %d)" % (len(cx), len(snd)))
+    else:
+        a = [(x.get("c") or {}).get("s") for x in cx[0].node["args"][1:3]]
+        if a != ["false", "true"]:
+            ctx.fail(o, cx[0], "try_maintenance requests a run with compare_exchange(%s, %s) instead of (false, true)" % tuple(a))
+        if not tm.site_dominates(cx[0], snd[0]):
+            ctx.fail(o, snd[0], "the maintenance signal can be sent without having won the flag")
+    # (3) the loop lowers the flag after processing, on every iteration that processed
+    ml = [b for b in prog.find(r"^TinyLFU::maintenance_loop::\{closure#0\}$")]
+    if len(ml) != 1:
+        ctx.fail(o, "(program)", "anchor missing: the maintenance thread's closure")
+    else:
+        b = ctx.touch(ml[0])
+        pr = b.calls_to(r"TinyLFUInner::<K, V, L>::process_policy_message$")
+        st = [s_ for s_ in b.calls_to(r"atomic::Atomic::<bool>::store$") if (s_.node["args"][1].get("c") or {}).get("s") == "false"]
+        rc = b.calls_to(r"channel::Receiver::<T>::recv$")
+        n += len(pr) + len(st) + len(rc)
+        if len(pr) != 1 or len(st) != 1 or len(rc) != 1:
+            ctx.fail(o, Site(b, 0, 0), "anchor missing: recv / process_policy_message / store(false) in the maintenance loop (%d / %d / %d)" % (len(rc), len(pr), len(st)))
+        else:
+            if b.must_pass([pr[0].node["t"]], [st[0].bb], to_bbs=[rc[0].bb] + b.returns()):
+                ctx.fail(o, pr[0], "the maintenance loop can go back to waiting (or exit) after a run without lowering maintenance_flag: no further run is ever requested")
+            g = df.guarded_by(b, pr[0].bb, lambda c: c.kind == "call" and c.callee.endswith("PartialEq::eq"))
+            pol = {((v != 0) != c.negated) for sb, v, tb, c in g if v != "otherwise"} | {(not c.negated) for sb, v, tb, c in g if v == "otherwise"}
+            if pol != {True}:
+                ctx.fail(o, pr[0], "the maintenance loop processes under recv() == Ok(()) being %s (must be exactly `true`): signals are swallowed and nothing is evicted" % (sorted(pol) or "untested"))
+    o.sites = n
+
+
+def c16h(ctx):
+    """When the storage refuses to drop a key (its owner says it is pinned), the policy parks THAT key in the Pinned region -
+    by moving the least-recent entry of the region the key was peeked from.  Moving the head of another region parks an
+    unrelated, unpinned entry (stranded in Pinned: nobody will ever un-pin it) and leaves the pinned key where it was (the
+    window then grows by one per occurrence): residency is no longer bounded by capacity + pinned + slack."""
+    prog = ctx.prog
+    o = ctx.ob("C16.h", "policy/the-refused-key-is-the-one-parked", "K4+K5",
+               "every move_least_recent_of_to_new_region(R, Pinned) in the policy is guarded by the storage's refusal of the key peeked from the same region R")
+    n = 0
+    for b in prog.all_bodies(["qbice_storage"]):
+        if not b.name.startswith("Policy::") or "closure" in b.name:
+            continue
+
+        def region_of(op):
+            for x in df.origins_of_operand(b, op):
+                if x.kind == "agg" and x.site.node["rv"].get("adt", "").endswith("lru::Region"):
+                    return x.site.node["rv"]["vname"]
+            return None
+        for s_ in b.calls_to(r"Lru::<K>::move_least_recent_of_to_new_region$"):
+            src, dst = region_of(s_.node["args"][1]), region_of(s_.node["args"][2])
+            if dst != "Pinned":
+                continue
+            n += 1
+            ctx.touch(b)
+            g = df.guarded_by(b, s_.bb, lambda c: c.kind == "call" and c.callee.endswith("Fn::call"))
+            refused = [c for sb, v, tb, c in g if (v != "otherwise" and ((v != 0) != c.negated) is False) or (v == "otherwise" and c.negated)]
+            if not refused:
+                ctx.fail(o, s_, "%s parks the head of %s in the Pinned region without the storage having refused to drop a key" % (b.name, src))
+                continue
+            c = refused[-1]                                   # the innermost refusal
+            peeked = None
+            for x in df.origins_of_operand(b, c.args[1]):
+                if x.kind == "call" and (x.callee() or "").endswith("Lru::<K>::peek_least_recent"):
+                    peeked = region_of(x.site.node["args"][1])
+            if peeked is None and b.name == "Policy::unpin":
+                continue                                      # unpin's refusals concern the un-pinned key itself (C16.b)
+            if peeked != src:
+                ctx.fail(o, s_, "%s: the storage refused to drop the key peeked from %s, but the entry parked in Pinned is the head of %s: an unrelated entry is stranded in the Pinned "
+                         "region and the pinned key stays where it was - residency grows by one per occurrence" % (b.name, peeked, src))
+    o.sites = n
+    if n < 3:
+        ctx.fail(o, "(program)", "expected >= 3 parkings into the Pinned region (on_write x2, unpin), found %d" % n)
+
+
+def c16i(ctx):
+    """D18.  Keys that lost their duel while pinned are parked in the Pinned region; with the polling strategy the trim loop of
+    each maintenance round drops those that are no longer pinned.  A round parks up to a whole batch; if the loop stops at
+    the first key that is STILL pinned it gets past one pin per round, and released entries pile up behind long-pinned
+    ones (about one batch per pinned entry) - the slack is no longer fixed.  The loop goes on after a refusal, and it is
+    bounded by a counter (every key is rotated to the head, so an unbounded loop over pinned keys would not end)."""
+    prog = ctx.prog
+    o = ctx.ob("C16.i", "policy/trim-loop-continues-past-a-pinned-key", "K2", "attempt_to_trim_overflowing_pinned re-polls the region after a refused removal, under a decreasing counter")
+    b = ctx.touch(prog.body("Policy::attempt_to_trim_overflowing_pinned"))
+    pk = b.calls_to(r"Lru::<K>::peek_least_recent$")
+    sh = b.calls_to(r"Lru::<K>::shuffle_tail_to_head$")
+    o.sites = len(pk) + len(sh)
+    if len(pk) != 1 or len(sh) != 1:
+        ctx.fail(o, Site(b, 0, 0), "anchor missing: peek_least_recent / shuffle_tail_to_head in the trim loop (%d / %d)" % (len(pk), len(sh)))
+        return
+    if pk[0].bb not in b.reachable([sh[0].node["t"]]):
+        ctx.fail(o, sh[0], "the trim loop stops at the first parked key that is still pinned: released entries behind it are not dropped in this round, and a round parks more keys than it "
+                 "gets past - residency grows with the number of long-pinned entries (not a fixed slack)")
+        return
+    dec = [st for blk in b.blocks if not blk["cleanup"] for st in blk["stmts"] if st["k"] == "assign" and st["rv"].get("k") == "bin" and st["rv"]["op"] in ("Sub", "SubWithOverflow")]
+    rng = b.calls_to(r"iter::range::.*next$|Iterator::next$")
+    if not dec and not rng:
+        ctx.fail(o, sh[0], "the trim loop continues past pinned keys but nothing bounds it: with only pinned keys parked it rotates the region for ever")
+
+
 def run(ctx):
     ctx.run_clause("C16.e", c16e)
     ctx.run_clause("C16.a", c16a)
@@ -484,3 +611,6 @@ def run(ctx):
     ctx.run_clause("C16.c", c16c)
     ctx.run_clause("C16.d", c16d)
     ctx.run_clause("C16.f", c16f)
+    ctx.run_clause("C16.g", c16g)
+    ctx.run_clause("C16.h", c16h)
+    ctx.run_clause("C16.i", c16i)
